@@ -18,12 +18,12 @@ AB = "web/_abnf.py"
 Q = "twisted.web.client."
 TECHNIQUE = "limit-test dominance, def-use pairing and must-pass-through stripping on the normalised agent; status x method table exhaustively; bounded redirect histories"
 EXPLANATION = (
-    "STRUCTURAL on the normalised RedirectAgent: the follow-up request is dominated by `redirectCount < limit`, the count handed on is redirectCount + 1 and starts at 0; the URI "
+    "STRUCTURAL on the normalised RedirectAgent: the follow-up request is dominated by `redirectCount < limit`, the count handed on is redirectCount + 1 and starts at 0; the method handed to the next hop's handler is the very expression the follow-up request is issued with (def-use); the URI "
     "requested is the one remembered for the next hop and is _resolveLocation(<URI of the receiving request>, Location) (F27); on every path with headers the request is reached "
     "only through the `not in _sensitiveHeaderNames` rebuild or the same-origin edge of a scheme/host/port test (must-pass-through); status tables: disjoint, complete, 307/308 "
     "never method-switching (F27b known), default sensitive names present.  FINITE-EXHAUSTIVE: every status-table member / non-member x method class (GET, HEAD, other) of both "
     "agents; limit classes 0 / 1 / 2 / 20 / default through __init__.  BOUNDED second layer (bounded evidence only for: URL resolution over chains, exact limit counts, credential "
-    "confinement over origin histories incl. configured names): "
+    "confinement over origin histories incl. configured names, the method over chains of 2-3 redirects from GET/HEAD/POST): "
     "RedirectAgent / BrowserLikeRedirectAgent are instantiated as model objects whose methods are the repository's own functions (interpreted over the AST; the inner "
     "agent, Deferred, Headers, URI parsing are synchronous checker models, urljoin is the stdlib's; nothing of twisted is imported or run) and driven through redirect "
     "histories; every request issued to the inner agent is compared with an oracle: (a) each target is the Location resolved against the URI of the request that "
@@ -36,6 +36,7 @@ EXPLANATION = (
 )
 RULE_KINDS = {
     "limit/dominates-follow": "structural", "limit/count-increases": "structural", "pairing/resolve-base": "structural", "pairing/next-hop-structural": "structural",
+    "pairing/method-handed-on": "structural", "method/multi-hop": "bounded",
     "credentials/must-pass-strip": "structural", "credentials/default-names": "structural", "tables/": "structural",
     "method/status-table": "finite-exhaustive", "limit/configured-value": "finite-exhaustive",
     "pairing/next-hop": "bounded", "pairing/previous-response": "bounded", "limit/follows-at-most": "bounded", "limit/no-location": "bounded", "credentials/confined-to-origin": "bounded",
@@ -201,6 +202,23 @@ def _s_redirect(ctx):
         b0 = _bind(first[0].args[1:], hp, 2)
         ctx.check("redirectCount" in b0 and isinstance(b0["redirectCount"], ast.Constant) and b0["redirectCount"].value == 0, "limit/count-increases", Q + "RedirectAgent.request | initial count",
                   "the redirect count does not start at 0")
+    # (1b) the method the next hop's handler is told is the method the follow-up request was issued with (same value: def-use)
+    issued = rc.args[0] if rc.args else None
+    if issued is None or "method" not in b:
+        raise Abstain("the follow-up request / the continuation do not pass the method positionally")
+    told = b["method"]
+    if src(issued) == src(told):
+        redefs = [s_ for s_ in walk_local(hr) if isinstance(s_, (ast.Assign, ast.AugAssign, ast.AnnAssign)) and isinstance(issued, ast.Name)
+                  and any(isinstance(t, ast.Name) and t.id == issued.id for t in (s_.targets if isinstance(s_, ast.Assign) else [s_.target]))]
+        between = [s_ for s_ in redefs if g.path([rn], g.ids_of(s_), strict=True) is not None and g.path(g.ids_of(s_), [cn], strict=True) is not None]
+        ctx.check(not between, "pairing/method-handed-on", q + " | method of the follow-up request vs continuation",
+                  f"`{src(issued)}` is re-assigned between the follow-up request and the continuation: the next hop is told another method than the one requested")
+    elif isinstance(issued, (ast.Name, ast.Constant, ast.IfExp)) and isinstance(told, (ast.Name, ast.Constant, ast.IfExp)):
+        ctx.violation("pairing/method-handed-on", q + " | method of the follow-up request vs continuation",
+                      f"the follow-up request is issued with `{src(issued)}` but the next hop's handler is told `{src(told)}`: a method switch (303 -> GET) is forgotten after one hop, "
+                      "so a later 301/302/307/308 is refused or followed with the original method")
+    else:
+        raise Abstain(f"cannot compare the issued method `{src(issued)}` with the one handed on `{src(told)}`")
     # (2) pairing: the URI requested is what the next hop will resolve against; it is the Location resolved against the receiving request's URI
     target = rc.args[1] if len(rc.args) > 1 else None
     if target is None or RU not in b:
@@ -485,6 +503,31 @@ def _methods(ctx):
                 ctx.check(ok, "method/status-table", q + f" | {code} {method.decode()}",
                           f"{agent}: {method.decode()} answered with {code}: " + (f"followed as {got_m.decode()}" if got_follow else f"not followed ({out[:3]})") +
                           f"; expected " + (f"a follow-up {m2.decode()} without body" if follow else "ResponseFailed(PageRedirect)"))
+        # histories of two and three redirects from every start method: each hop is judged with the method the PREVIOUS request was actually issued with
+        bad, n = [], 0
+        CODES5 = (301, 302, 303, 307, 308)
+        for method in (b"GET", b"HEAD", b"POST"):
+            for chain in [(a, b_) for a in CODES5 for b_ in CODES5] + [(303, a, b_) for a in (302, 307) for b_ in (303, 308)] + [(a, 303, b_) for a in (301, 307) for b_ in (302, 307)]:
+                n += 1
+                inner, out = _run(w, agent, [_Response(c_, b"/hop%d" % i) for i, c_ in enumerate(chain)] + [_Response(200)], method=method)
+                want, cur = [method], method
+                for c_ in chain:
+                    follow, cur = _expected(agent, c_, cur)
+                    if not follow:
+                        break
+                    want.append(cur)
+                else:
+                    follow = True
+                got = [c[0] for c in inner.calls]
+                ok = got == want and ((out[0] == "ok") if follow else (out[0] == "fail" and out[2] == "PageRedirect"))
+                if not ok:
+                    bad.append((method, chain, got, want, out[:3]))
+        msg = ""
+        if bad:
+            m_, chain, got, want, o_ = bad[0]
+            msg = (f"{agent}: {m_.decode()} answered with {' then '.join(map(str, chain))}: requests issued with {[x.decode() for x in got]}, outcome {o_}; expected "
+                   f"{[x.decode() for x in want]} ({'then the final response' if len(want) == len(chain) + 1 else 'then ResponseFailed(PageRedirect)'}); {len(bad)} of {n} histories wrong")
+        ctx.check(not bad, "method/multi-hop", Q + agent + " | <start method x redirect chains of 2-3 hops>", msg, detail=f"{n} histories")
         inner, out = _run(w, agent, [_Response(200)])
         ctx.check(out[0] == "ok" and len(inner.calls) == 1, "method/status-table", Q + agent + " | 200", "a non-redirect response is not returned as is")
         inner, out = _run(w, agent, [_Response(304, b"/x")])
